@@ -57,5 +57,15 @@ PROPS['C05'] = {
             'block operators, FFT/wavelet/ray transforms (external kernels); non-uniformly weighted discretizations for difference/resizing operators',
     'technique': 'contract-based deductive verification: adjoint identity as a postcondition over abstract inner products (Gram normal form), z3',
 }
+PROPS['C06'] = {
+    'level': 'proof',
+    'text': 'Deductive: for each of the 9 operator-expression classes with abstract operands (derivatives of operands are arbitrary linear maps dA[p], one per '
+            'semantically distinct point) the operator returned by the real derivative(x0) is proved to act on every direction as the textbook sum / chain / '
+            'product rule at the correct inner point, to be linear and to have the right domain/range; closed-form derivatives of the pointwise default operators '
+            'are proved equal to the symbolic derivative of the expression extracted from _call.',
+    'note': 'trusted: pyvc interpreter, C01/C03/C04 contracts, the textbook rules as specification. Not under contract: PointwiseNorm, ufunc operators, '
+            'Norm/Dist operators, product-space operators; central-difference convergence order is an analysis fact',
+    'technique': 'contract-based deductive verification: derivative rules as postconditions over abstract Frechet derivatives, symbolic differentiation of extracted pointwise terms, z3',
+}
 for _k in PROPS:
     NOT_APPLICABLE.pop(_k, None)
